@@ -1406,3 +1406,54 @@ def _loops_of(node):
             out.append(p)
         p = getattr(p, "_parent", None)
     return out
+
+
+def hoisted_stale_value(ctx, rid, rel, qualname, what=""):
+    """A value computed from a container is not hoisted above a loop that changes the container.
+    For every name read inside a loop of the function whose definitions all lie outside that loop:
+    if the defining expression reads a variable that the loop body mutates in place (subscript
+    store into it or into one of its elements, `.append` / `.sort` ..., augmented assignment),
+    the value read in later iterations is the one of the state before the loop."""
+    from ..flow import flow_of
+    f = ctx.tree.func(rel, qualname)
+    fl = flow_of(f)
+    MUT = ("append", "extend", "insert", "pop", "remove", "clear", "sort", "reverse", "fill", "put", "update")
+    n = 0
+    for L in [x for x in walk_local(f) if isinstance(x, (ast.For, ast.While))]:
+        inside = {id(x) for x in ast.walk(L)}
+        mutated = {}
+        for st in ast.walk(L):
+            if isinstance(st, (ast.Assign, ast.AugAssign)):
+                for t in (st.targets if isinstance(st, ast.Assign) else [st.target]):
+                    b = t
+                    while isinstance(b, ast.Subscript):
+                        b = b.value
+                    if isinstance(t, ast.Subscript) and isinstance(b, ast.Name):
+                        mutated.setdefault(b.id, st)
+            if isinstance(st, ast.Call) and isinstance(st.func, ast.Attribute) and st.func.attr in MUT and isinstance(st.func.value, ast.Name):
+                mutated.setdefault(st.func.value.id, st)
+        if not mutated:
+            continue
+        seen = set()
+        for x in ast.walk(L):
+            if not (isinstance(x, ast.Name) and isinstance(x.ctx, ast.Load)) or x.id in seen or x.id in mutated:
+                continue
+            st_ = enclosing_stmt(x)
+            try:
+                defs = [d for d, sfx in fl.rd(x.id, fl.cfg.node_of(st_ if not isinstance(st_, (ast.For, ast.While, ast.If)) else x)) if not sfx]
+            except Exception:
+                continue
+            if not defs or any(d.stmt is None or id(d.stmt) in inside for d in defs) or any(d.kind != "assign" or d.value is None for d in defs):
+                continue
+            seen.add(x.id)
+            for d in defs:
+                reads = {y.id for y in ast.walk(d.value) if isinstance(y, ast.Name) and isinstance(y.ctx, ast.Load)}
+                hit = sorted(reads & set(mutated))
+                # only values *derived by indexing / calling* are stale; a plain alias of the container follows its changes
+                if hit and not (isinstance(d.value, ast.Name)):
+                    n += 1
+                    ctx.bad(rid, d.stmt, f"{qualname}: `{short(d.stmt, 50)}` is computed once before the loop although `{hit[0]}` is changed inside it (`{short(mutated[hit[0]], 50)}`): from the second iteration on `{x.id}` describes the arrangement before the loop, not the current one{what}", construct=f"{qualname}: {x.id} hoisted above a loop that changes {hit[0]}")
+                    break
+        if not n:
+            ctx.ok(rid, L, f"{qualname}: no value derived from a container the loop changes is computed before the loop ({sorted(mutated)} change inside)")
+    return n
